@@ -245,6 +245,136 @@ def r_last_unwrap(sig, body, arg):
     return sig, body, 1
 
 
+def _match_paren(text, o):
+    depth = 0
+    for k in range(o, len(text)):
+        if text[k] in "([{":
+            depth += 1
+        elif text[k] in ")]}":
+            depth -= 1
+            if depth == 0:
+                return k
+    return -1
+
+
+def _stmt_start(body, pos):
+    """start of the statement containing pos: after the previous `;`, `{` or `}` at the same level"""
+    k = pos - 1
+    depth = 0
+    while k >= 0:
+        ch = body[k]
+        if ch in ")]":
+            depth += 1
+        elif ch in "([":
+            depth -= 1
+        elif ch in ";{}" and depth <= 0:
+            break
+        k -= 1
+    k += 1
+    while k < len(body) and body[k] in " \t\n":
+        k += 1
+    return k
+
+
+def _parse_chain(body, it):
+    """body[it:] starts with `.iter()`; parse `.map(|P| E)`* then the terminal.  Returns
+    (closures [(pat, expr)], terminal_kind, terminal_arg, end_index) or None."""
+    k = it + len(".iter()")
+    closures = []
+    while True:
+        m = re.match(r"\s*\.map\(", body[k:])
+        if not m:
+            break
+        o = k + m.end() - 1
+        c = _match_paren(body, o)
+        if c < 0:
+            return None
+        inner = body[o + 1:c].strip()
+        mm = re.match(r"\|\s*([^|]+?)\s*\|\s*(.*)$", inner, re.S)
+        if not mm:
+            return None
+        closures.append((mm.group(1), mm.group(2).strip()))
+        k = c + 1
+    m = re.match(r"\s*\.sum::<(\w+)>\(\)", body[k:])
+    if m:
+        return closures, "sum", m.group(1), k + m.end()
+    m = re.match(r"\s*\.collect_vec\(\)", body[k:])
+    if m:
+        return closures, "collect", None, k + m.end()
+    return None
+
+
+def r_hoist_chains(sig, body, arg):
+    """R4/R4b: every `RECV.iter().map(|P| E)[.map(|P2| E2)]* .sum::<T>()` or `.collect_vec()` used
+    inside a statement is hoisted into an explicit loop placed just before that statement:
+        let mut vx_accK: T = 0;  for vx_i in 0..RECV.len() { let P = RECV[vx_i]; let P2 = E; vx_accK += E2; }
+    Closure parameters `&x` / `x` over Copy elements are bound by value; a leading `*` on them is
+    stripped.  Chains are processed in source order; K counts from 1."""
+    n = 0
+    pos = 0
+    while True:
+        it = body.find(".iter()", pos)
+        if it < 0:
+            break
+        # receiver path
+        r0 = it
+        while r0 > 0 and (body[r0 - 1].isalnum() or body[r0 - 1] in "._"):
+            r0 -= 1
+        recv = body[r0:it]
+        parsed = _parse_chain(body, it)
+        if not recv or parsed is None or not parsed[0]:
+            pos = it + 1
+            continue
+        closures, kind, targ, end = parsed
+        n += 1
+        lines = []
+        binders = []
+        prev_val = "%s[vx_i]" % recv
+        for idx, (pat, expr) in enumerate(closures):
+            p = pat.strip()
+            if p.startswith("&"):
+                p = p[1:].strip()
+            names = _binder_names(p)
+            last = idx == len(closures) - 1
+            lines.append("        let %s = %s;" % (p, prev_val))
+            e2, _ = _strip_deref(expr, names)
+            if e2.startswith("(") and _match_paren(e2, 0) == len(e2) - 1:
+                e2 = e2[1:-1]
+            prev_val = e2
+        if kind == "sum":
+            acc = "vx_sum%d" % n
+            pre = "let mut %s: %s = 0;\n    for vx_i in 0..%s.len() {\n%s\n        %s += %s;\n    }\n    " % (
+                acc, targ, recv, "\n".join(lines), acc, prev_val)
+        else:
+            acc = "vx_vec%d" % n
+            pre = "let mut %s = Vec::new();\n    for vx_i in 0..%s.len() {\n%s\n        %s.push(%s);\n    }\n    " % (
+                acc, recv, "\n".join(lines), acc, prev_val)
+        st = _stmt_start(body, r0)
+        body = body[:st] + pre + body[st:r0] + acc + body[end:]
+        pos = st + len(pre)
+    return sig, body, n
+
+
+def r_poly_binop(sig, body, arg):
+    """R14: in `let <arg> = A - B;` / `A + B` on Polynomial operands the operator becomes a call of the
+    extracted impl: poly_sub(A, B) / poly_add(A, B)."""
+    m = re.search(r"let\s+%s\s*=\s*([^;]+);" % re.escape(arg), body)
+    if not m:
+        return sig, body, 0
+    e = m.group(1)
+    depth = 0
+    for k, ch in enumerate(e):
+        if ch in "([{":
+            depth += 1
+        elif ch in ")]}":
+            depth -= 1
+        elif depth == 0 and ch in "+-" and k > 0 and e[k - 1] == " " and k + 1 < len(e) and e[k + 1] == " ":
+            fn = "poly_sub" if ch == "-" else "poly_add"
+            new = "let %s = %s(%s, %s);" % (arg, fn, e[:k].strip(), e[k + 1:].strip())
+            return sig, body[:m.start()] + new + body[m.end():], 1
+    return sig, body, 0
+
+
 RULES = {
     "Self": r_self,
     "Generic": r_generic,
@@ -257,6 +387,8 @@ RULES = {
     "MapSum": r_map_sum,
     "IterTakeLoop": r_iter_take_loop,
     "LastUnwrap": r_last_unwrap,
+    "HoistChains": r_hoist_chains,
+    "PolyBinOp": r_poly_binop,
 }
 RULE_IDS = {"Self": "R1", "Generic": "R1", "BoolAssign": "R2", "ForUnderscore": "R3",
             "BitVecIndex": "R6"}
